@@ -181,12 +181,6 @@ def RoundComplete (u : List ModCfg) (ioDict : List (String × Name)) (log : List
 instance (u : List ModCfg) (d : List (String × Name)) (log : List Ev) : Decidable (RoundComplete u d log) := by
   unfold RoundComplete; infer_instance
 
-/-- the start-up sequence of its poll thread got as far as module `c`: the round was not broken off, or `c`'s initial
-reads (which follow its configured writes) were begun before the thread reported -/
-def reachedB (u : List ModCfg) (ioDict : List (String × Name)) (log : List Ev) (c : ModCfg) : Bool :=
-  !brokenOff u ioDict log (ownerOf ioDict c) ||
-    (log.takeWhile (· != Ev.rounddone (ownerOf ioDict c))).contains (Ev.initread c.name)
-
 def isShutdown : Ev → Bool
   | .shutdown _ => true
   | _ => false
@@ -228,11 +222,8 @@ def judge (cfg : Cfg) (o : Obs) : List String :=
   (if decide (AttachedReady o.log) then [] else ["attached_ready"]) ++
   (if badAttachmentB cfg o.ioDict && up then ["bad_attachment_reported"] else []) ++
   (if decide (NoHalfStart o) then [] else ["no_half_start"]) ++
-  (if up && !decide (WritesBeforeFirstPoll (u.filter (fun c => o.modules.contains c.name && reachedB u o.ioDict o.log c)) o.log)
+  (if up && !decide (WritesBeforeFirstPoll (u.filter (fun c => o.modules.contains c.name)) o.log)
      then ["writes_before_first_poll"] else []) ++
-  -- the same clause for the modules a start-up sequence broken off by a communication failure did not reach
-  (if up && !decide (WritesBeforeFirstPoll (u.filter (fun c => o.modules.contains c.name && !reachedB u o.ioDict o.log c)) o.log)
-     then ["writes_skipped_after_comm_failure"] else []) ++
   (if decide (ReadyAfterFirstRound o.log) && decide (RoundComplete u o.ioDict o.log) then []
      else ["ready_after_first_round"]) ++
   (if up && !decide (ShutdownOrder o.modules edges o.log) then ["shutdown_order"] else []) ++
